@@ -34,7 +34,7 @@ ASSUMPTIONS = [
     "at digest sizes 1 and 2 only the un-suffixed part of a fresh id is required to be deterministic (different contents collide)",
 ]
 TYPECHECK_OK = True  # every generated value conforms to its annotation: some shards run with RUNTIME_TYPE_CHECK on
-MUST_SEE = ["deep_3000_detaches", "failing_duplicate", "remodelled_class_detach", "replace_without_changes", "id_determinism_checks_with_occupied_neighbours", 
+MUST_SEE = ["long_values_differing_in_the_middle", "deep_3000_detaches", "failing_duplicate", "remodelled_class_detach", "replace_without_changes", "id_determinism_checks_with_occupied_neighbours", 
     "op_detach_stale_with_live_twin", "op_replace_fail", "drops", "suffix_ge_2", "detach_depth_ge2", "asobj_recreated",
     "asobj_reused", "digest1_histories", "dead_weakrefs_checked", "replace_on_stale", "id_determinism_checks", "replace_fail_after_registration",
 ]
@@ -484,6 +484,8 @@ def run_shard(ctx):
         if ctx.shard % 4 == 0:
             deep_detach_leg(ctx, U)
             collect()
+        long_value_leg(ctx, U)
+        collect()
 
 
 def deep_detach_leg(ctx, U):
@@ -520,6 +522,31 @@ def deep_detach_leg(ctx, U):
         for x in chain:
             x.detach_self()
         del chain, n, start, below, above
+
+
+def long_value_leg(ctx, U):
+    """the id of a node is a function of class, origin and content - also for long property values: a node that differs
+    from a live one in the middle of a long value is not its twin (no collision suffix), whoever is alive"""
+    from vlib import gen as G
+
+    P = U.P
+    Leaf = U.cls[f"{P}Leaf"]
+    for A, B in ((G.LONG_STRS[0], G.LONG_STRS[1]), (G.LONG_STRS[1], G.LONG_STRS[2]), ("x" * 5000 + "1" + "y" * 5000, "x" * 5000 + "2" + "y" * 5000)):
+        ctx.evaluations += 1
+        ctx.count("long_values_differing_in_the_middle")
+        b_alone = Leaf(v=1, s=B)
+        id_alone = b_alone.id
+        b_alone.detach()
+        del b_alone
+        collect()
+        a = Leaf(v=1, s=A)
+        b = Leaf(v=1, s=B)
+        got = b.id
+        a.detach()
+        b.detach()
+        if got != id_alone or a.id == got:
+            ctx.violation("id-nondeterministic", "the id of a node with a long property value depends on whether another node (same class and origin, a value of the same length that differs in the middle) is alive", {"alone": id_alone, "next_to_the_other": got, "value_length": len(B)})
+        del a, b
 
 
 def remodel_leg(ctx, U):
